@@ -363,16 +363,22 @@ class ScriptSocket:
     def __init__(self, chunks=()):
         self.chunks = list(chunks)
         self.sent = []
+        self.served = []
 
     def send(self, b):
         self.sent.append(bytes(b))
         return len(b)
 
     def recv(self, n):
+        """the chunks are arrival bursts; like a stream socket, recv(n) hands out at most n bytes of what has arrived and leaves the rest"""
         if not self.chunks:
             raise Starved()
         c = self.chunks.pop(0)
-        assert 0 < len(c) <= n
+        assert len(c) > 0
+        if len(c) > n:
+            self.chunks.insert(0, c[n:])
+            c = c[:n]
+        self.served.append(c)
         return c
 
 
@@ -419,8 +425,9 @@ def client_session(c, max_calls):
             out = ("HRStarved",)
         except RuntimeError as e:
             if "Received error message from backend" not in str(e):
-                raise
-            out = ("HRError", ("RErr", int(re.search(r"err_code=(\d+)", str(e)).group(1))))
+                out = ("HRCrash", "%s: %s" % (type(e).__name__, str(e)[:80]))       # e.g. RecursionError: a misbehaviour of the implementation
+            else:
+                out = ("HRError", ("RErr", int(re.search(r"err_code=(\d+)", str(e)).group(1))))
         except Exception as e:                     # noqa: BLE001  anything else is a misbehaviour of the implementation
             out = ("HRCrash", "%s: %s" % (type(e).__name__, str(e)[:80]))
         calls.append((out, list(c._shared_memory.upd[n0:])))
